@@ -6,3 +6,59 @@ import sys
 
 sys.path.insert(0, os.path.dirname(os.path.abspath(__file__)))
 import rsx  # noqa: E402
+
+
+def scan_c04_constructions(repo):
+    """C04: the private tuple field of PositiveCoin / NonZeroInt is only ever constructed inside the checked
+    `try_from` and `decode` functions of pallas-codec/src/utils.rs, the field stays private, and no derive
+    generates an unchecked CBOR decoder. One obligation per construction site / declaration."""
+    rel = 'pallas-codec/src/utils.rs'
+    res = dict(name='c04_construction_sites', checks=0, failures=[], undecided=[], summary='')
+    p = os.path.join(repo, rel)
+    if not os.path.exists(p):
+        res['undecided'].append(f'{rel} missing')
+        return res
+    src = open(p).read()
+    m = rsx.mask(src)
+    sites = []
+    for ty in ('PositiveCoin', 'NonZeroInt'):
+        decl = re.search(r'pub struct %s\(([^)]*)\);' % ty, m)
+        res['checks'] += 1
+        if not decl:
+            res['undecided'].append(f'declaration of {ty} not found (anchor lost)')
+            continue
+        if 'pub' in decl.group(1):
+            res['failures'].append(dict(obligation=f'C04.scan.{ty}.field_private', detail=f'{ty} field is public: any code can build a zero value',
+                                        failing_input=f'{ty}(0)'))
+        # derive list just above the declaration
+        pre = src[max(0, decl.start() - 400):decl.start()]
+        dm = re.findall(r'#\[derive\(([^\]]*)\)\]', pre, flags=re.S)
+        derives = ','.join(dm[-1:]) if dm else ''
+        res['checks'] += 1
+        if re.search(r'\bDecode\b', derives):
+            res['failures'].append(dict(obligation=f'C04.scan.{ty}.no_derived_decode', detail=f'{ty} derives minicbor Decode (transparent): zero is accepted',
+                                        failing_input='CBOR 0x00'))
+        # construction sites: `Ty(` anywhere, `Self(` inside impl blocks for Ty
+        for mo in re.finditer(r'\b%s\(' % ty, m):
+            if m[max(0, mo.start() - 11):mo.start()].rstrip().endswith('struct'):
+                continue
+            sites.append((ty, mo.start()))
+        for imo in re.finditer(r'\bimpl\b[^{;]*\bfor\s+%s\b[^{;]*\{' % ty, m):
+            end = rsx.match_brace(m, imo.end() - 1)
+            for mo in re.finditer(r'\bSelf\(', m[imo.end():end]):
+                sites.append((ty, imo.end() + mo.start()))
+    for ty, off in sites:
+        res['checks'] += 1
+        # enclosing fn name
+        fns = [mo for mo in re.finditer(r'\bfn\s+(\w+)', m[:off])]
+        fn = fns[-1].group(1) if fns else '?'
+        body_start = fns[-1].start() if fns else 0
+        seg = m[body_start:off]
+        line = rsx.line_of(src, off)
+        guarded = re.search(r'if\s+\w+\s*==\s*0\s*\{\s*return\s+Err', seg) is not None
+        if fn not in ('try_from', 'decode') or not guarded:
+            res['failures'].append(dict(obligation=f'C04.scan.{ty}.construction@{fn}',
+                                        detail=f'{rel}:{line}: {ty} constructed in `{fn}` without a preceding zero check',
+                                        failing_input=f'{fn}(0)'))
+    res['summary'] = f'{len(sites)} construction sites of the private field, all inside checked try_from/decode' if not res['failures'] else 'unchecked construction found'
+    return res
